@@ -339,7 +339,54 @@ def cap_trace(path, max_lines):
     return len(kept)
 
 
+SHAPES = ["plain", "words-mixedcase", "escaped-dot"]
+
+
+def run_replay(ctx, path):
+    """bin/check C13 --replay <file>: re-run exactly the recorded failing case."""
+    with open(path) as f:
+        doc = json.load(f)
+    ctx.seed = int(doc.get("seed", ctx.seed))
+    rep = doc.get("replay", {})
+    ctx.cov["rule"] = "replay of one recorded failing case"
+    if "trace_prefix" in rep:
+        trace = os.path.join(ctx.scratch, "replay.ndjson")
+        with open(trace, "w") as f:
+            f.write("\n".join(rep["trace_prefix"]) + "\n")
+        lines = rep["trace_prefix"]
+        first_reset = max([i for i, l in enumerate(lines) if l.startswith('{"op":"Reset"')] or [0])
+        with open(trace, "w") as f:
+            f.write("\n".join(lines[first_reset:]) + "\n")
+        ctx.spec_dir(MOD)
+        validate_trace(ctx, "replay", rep["cfg"], trace)
+        ctx.cov["states"] = ctx.cov["transitions"] = max(1, len(lines))
+        return
+    driver = rep.get("driver")
+    if driver == "TestResolverShed":
+        res = ctx.go_driver("./c13", driver, {"cfg": driver_cfg(read_cfg("Sim_Req"))}, name="replay", timeout=300)
+        ctx.take_driver_result(res, "[replay] ")
+        ctx.cov["states"] = ctx.cov["transitions"] = 1
+        return
+    if driver not in ("TestFailureCacheReplay", "TestRequestReplay", "TestProbeReplay"):
+        raise vf.MachineryError("replay file %s names no C13 driver" % path)
+    pid = rep["path"]
+    base = pid.split("#")[0].split("/")[0]
+    steps = [json.loads(x) for x in rep["steps"]]
+    inp = {"cfg": rep["cfg"], "shapes": 1, "shapeBase": SHAPES.index(rep.get("shape", "plain")),
+           "paths": [{"id": pid, "steps": steps}], "traceOut": "", "random": 0}
+    try:
+        inp.update(keyspace(read_cfg(base)))
+    except (OSError, KeyError):
+        pass
+    res = ctx.go_driver("./c13", driver, inp, name="replay", timeout=600)
+    ctx.take_driver_result(res, "[replay %s] " % pid)
+    ctx.cov["states"] = ctx.cov["transitions"] = max(1, len(steps))
+    ctx.sample({"replayed": pid, "steps": len(steps), "violations": len(res.get("violations", []))})
+
+
 def run(ctx, replay):
+    if replay:
+        return run_replay(ctx, replay)
     thorough = ctx.tier == "thorough"
     n = 1 if not thorough else 8
     ctx.cov["rule"] = ("behaviours = every labelled edge of the TLC state graphs G_Names / G_Dims (covering paths) + "
@@ -364,7 +411,7 @@ def run(ctx, replay):
     sims = {"Sim_Api": (120 * n, 40), "Sim_Cap": (80 * n, 40), "Sim_Req": (60 * n, 40), "Sim_Kill": (32 * n, 30),
             "Sim_Probe": (24 * n, 40)}
     if thorough:
-        sims["Sim_Store"] = (200, 40)
+        sims.update({"Sim_Store": (200, 40), "Sim_Default": (300, 60), "Sim_Odd": (300, 40), "Sim_ReqOdd": (200, 40)})
     sfut = {c: POOL.submit(sim_paths, ctx, c, num, depth) for c, (num, depth) in sims.items()}
 
     # ---- phase 2: spec -> code replays (each records its trace)
@@ -380,14 +427,22 @@ def run(ctx, replay):
         res, trace = fc("fc_" + g, g, paths, 1 if not thorough else 3, 0)
         ctx.cov["replay"]["fc_" + g]["edges_covered"] = nedges
         traces.append(("fc_" + g, g, trace, "FailureCache"))
-    for cfgname, rnd in (("Sim_Api", 10 * n), ("Sim_Cap", 10 * n)):
+    fc_sims = [("Sim_Api", 10 * n), ("Sim_Cap", 10 * n)] + ([("Sim_Default", 20), ("Sim_Odd", 20)] if thorough else [])
+    for cfgname, rnd in fc_sims:
         res, trace = fc("fc_" + cfgname, cfgname, sfut[cfgname].result(), 1, rnd)
         traces.append(("fc_" + cfgname, cfgname, trace, "FailureCache"))
         if cfgname == "Sim_Cap" and not res.get("counters", {}).get("evictions"):
             raise vf.MachineryError("capacity replay never evicted anything")
 
     # request level: cache.New + ServeDNS with a scripted downstream
-    for cfgname in ["Sim_Req", "Sim_Kill"] + (["Sim_Store"] if thorough else []):
+    # the 5-minute ceiling at the configuration boundary
+    res = ctx.go_driver("./c13", "TestCeiling", {"cfg": driver_cfg(read_cfg("Sim_Req"))}, name="ceiling", timeout=300)
+    ctx.take_driver_result(res, "[configuration ceiling] ")
+    ctx.cov["replay"]["ceiling"] = {"replays": res["cases"]}
+    if not res["cases"]:
+        raise vf.MachineryError("ceiling probe did not run")
+
+    for cfgname in ["Sim_Req", "Sim_Kill"] + (["Sim_Store", "Sim_ReqOdd"] if thorough else []):
         res, trace = run_driver(ctx, "TestRequestReplay", "req_" + cfgname, cfgname, sfut[cfgname].result(),
                                 what="cache.Cache " + cfgname)
         cnt = res.get("counters", {})
